@@ -21,6 +21,7 @@ type output struct {
 	Sat       int                     `json:"solver_sat"`
 	Unsat     int                     `json:"solver_unsat"`
 	Unknown   int                     `json:"solver_unknown"`
+	Fallbacks int                     `json:"solver_oneshot_fallbacks"`
 	SolverS   float64                 `json:"solver_s"`
 	Solver    string                  `json:"solver"`
 	Stubs     []string                `json:"stubs_used"`
@@ -98,6 +99,7 @@ func main() {
 	}
 	res.Queries, res.Sat, res.Unsat, res.Unknown = r.SolverQueries, r.SolverSat, r.SolverUnsat, r.SolverUnknown
 	res.SolverS = r.SolverTime.Seconds()
+	res.Fallbacks = r.SolverFallbacks
 	for s := range gosym.StubsUsed {
 		res.Stubs = append(res.Stubs, s)
 	}
